@@ -373,7 +373,18 @@ class LinOracles(Oracles):
         iterator tables produce — it evaluates the recorded constraints, not the code."""
         import itertools
         atoms = list(atoms)
-        for vals in itertools.product(range(bound + 1), repeat=len(atoms)):
+        # candidate values: the small ones, plus the landmarks the recorded constraints mention (e.g. usize::MAX for a sentinel score)
+        cand = list(range(bound + 1))
+        for f, (lo, hi) in self.iv.items():
+            if len(f) == 1 and abs(f[0][1]) == 1:
+                for c in (lo, hi):
+                    if c is not None:
+                        for v in (abs(c) - 1, abs(c), abs(c) + 1):
+                            if 0 <= v < (1 << 64) and v not in cand:
+                                cand.append(v)
+        if len(cand) ** max(len(atoms), 1) > 400000:
+            cand = cand[:bound + 1] + cand[-3:]
+        for vals in itertools.product(cand, repeat=len(atoms)):
             env = dict(zip(atoms, vals))
             ok = True
             for f, (lo, hi) in self.iv.items():
@@ -394,3 +405,91 @@ class LinOracles(Oracles):
             if pred(env):
                 return env
         return None
+
+
+# --------------------------------------------------------------------------- bit_set::BitSet over concrete small ids (shared model)
+class SetV:
+    """model of bit_set::BitSet over concrete small ids"""
+    __slots__ = ("s",)
+
+    def __init__(self, s=()):
+        self.s = frozenset(s)
+
+    def __repr__(self):
+        return "set%s" % sorted(self.s)
+
+
+def bitset_model(it, fn, args, dest_ty, term, caller, on_event=None):
+    """BitSet operations on SetV values; NotImplemented when the call is not a BitSet operation.  on_event(kind, id) is told about
+    insert / remove / contains"""
+    from .models import IterV, drain_iter
+    path = fn.get("path", "")
+    name = path.split("::")[-1]
+    if name in ("collect", "from_iter") and "BitSet" in (dest_ty or "") and args:
+        items = drain_iter(it, args[0], term, caller)
+        if items is None or not all(isinstance(x, Int) and x.is_conc() for x in items):
+            raise Undecided("bit set collected from %r" % (args[0],))
+        return SetV({x.val for x in items})
+    if not ("BitSet" in path or "bit_set" in path or "bit_set::BitSet" in fn.get("key", "")):
+        return NotImplemented
+    if name in ("with_capacity", "new", "default"):
+        return SetV()
+    if not args:
+        return NotImplemented
+    r = args[0]
+    sv = it.read(r.cell, r.path) if isinstance(r, Ref) else r
+    if isinstance(sv, Ref):
+        r = sv
+        sv = it.read(r.cell, r.path)
+    if not isinstance(sv, SetV):
+        raise Undecided("bit set operation on %r" % (sv,))
+
+    def conc(v):
+        return v.val if isinstance(v, Int) and v.is_conc() else None
+    i = conc(args[1]) if len(args) > 1 else None
+    ev = on_event or (lambda k, x: None)
+    if name == "insert":
+        if i is None:
+            raise Undecided("insert of a symbolic id")
+        it.write(r.cell, r.path, SetV(sv.s | {i}))
+        ev("insert", i)
+        return mkbool(i not in sv.s)
+    if name == "remove":
+        if i is None:
+            raise Undecided("remove of a symbolic id")
+        it.write(r.cell, r.path, SetV(sv.s - {i}))
+        ev("remove", i)
+        return mkbool(i in sv.s)
+    if name == "contains":
+        if i is None:
+            raise Undecided("contains of a symbolic id")
+        ev("contains", i)
+        return mkbool(i in sv.s)
+    if name == "extend" and len(args) == 2:
+        items = drain_iter(it, args[1], term, caller)
+        if items is None or not all(isinstance(x, Int) and x.is_conc() for x in items):
+            raise Undecided("bit set extended by %r" % (args[1],))
+        for x in items:
+            ev("insert", x.val)
+        it.write(r.cell, r.path, SetV(sv.s | {x.val for x in items}))
+        return Tup([])
+    if name in ("iter", "into_iter"):
+        items = [Int(64, False, val=x) for x in sorted(sv.s)]
+        return IterV("owned", (Ref(Cell(VecV(items), "bitset-iter")), 0, len(items)))
+    if name == "len":
+        return Int(64, False, val=len(sv.s))
+    if name == "is_empty":
+        return mkbool(not sv.s)
+    if name == "clear":
+        it.write(r.cell, r.path, SetV())
+        return Tup([])
+    if name == "clone":
+        return sv
+    if name in ("union_with", "intersect_with", "difference_with") and len(args) == 2:
+        o = args[1]
+        ov = it.read(o.cell, o.path) if isinstance(o, Ref) else o
+        if isinstance(ov, SetV):
+            ns = {"union_with": sv.s | ov.s, "intersect_with": sv.s & ov.s, "difference_with": sv.s - ov.s}[name]
+            it.write(r.cell, r.path, SetV(ns))
+            return Tup([])
+    return NotImplemented
